@@ -55,7 +55,8 @@ def make_param_cholesky(h, L_sym, name="chol"):
     def chol(K):
         K = np.asarray(K)
         calls[0] += 1
-        h.eq(f"{name}.argument_is_LLt[{calls[0]}]", K, L_sym @ L_sym.T)
+        # (an algebraic identity between two float evaluations of the same matrix: replays compare to ~1e-11, not 1e-6)
+        h.eq(f"{name}.argument_is_LLt[{calls[0]}]", K, L_sym @ L_sym.T, tol=1e-11)
         if h.sym:
             return L_sym.copy()
         return np.linalg.cholesky(K)
@@ -479,6 +480,23 @@ def autopatch(h, module):
     if _AUTO is None:
         _AUTO = _auto_table()
     names = {}
+    # module-level functions of numpy.random (the process-global generator): part of the environment -- every call returns
+    # fresh arbitrary numbers of the documented law, shared by nobody (so two equal chains that consult it diverge)
+    import numpy.random as _npr
+    glob = {}
+    for fname, meth in (("normal", "normal"), ("random", "random"), ("random_sample", "random"), ("uniform", "uniform"),
+                        ("standard_normal", "standard_normal"), ("exponential", "exponential"), ("permutation", "permutation"),
+                        ("shuffle", "shuffle"), ("choice", "choice"), ("randint", "integers")):
+        f = getattr(_npr, fname, None)
+        if f is not None:
+            glob[id(f)] = (f, meth)
+    for k, v in list(vars(module).items()):
+        hit = glob.get(id(v))
+        if hit is not None and hit[0] is v:
+            rng = getattr(h, "_global_rng", None)
+            if rng is None:
+                rng = h._global_rng = SymRng(h, "numpy.random(global)")
+            names[k] = getattr(rng, hit[1])
     ctors = {id(o): (o, st) for o, st in _array_constructors()}
     for k, v in list(vars(module).items()):
         hit = _AUTO.get(id(v))
